@@ -239,6 +239,7 @@ def display(I, v, spec=None):
     if isinstance(d, Agg):
         if d.tag == 'Cow': return list(I.str_of(d.f[0]))
         if d.tag == 'char': return [d.f[0]]
+        if isinstance(d.tag, str) and d.tag.startswith('E') and d.tag.isupper(): return list(lit(d.tag + ': os error'))
         f = I.prog.by_key.get('<%s as Display>::fmt' % d.tag)
         if f:
             return fmt_via_impl(I, f, v)
@@ -988,6 +989,8 @@ def install(prog):
     models_regex.install(prog)
     models_env.install(prog)
     models_os.install(prog)
+    import osmodel
+    osmodel.install(prog)
 
 def index_model(I, a, c):
     d = I.deref(a[0]); idx = I.deref(a[1])
